@@ -235,7 +235,16 @@ InitNamedRm == C("initnamedrm", <<R("r1", SG, 0, "a", "ctorerr", FALSE, <<>>),
                                   Rmd(Named(R("r2", SC, 0, "a", "init", FALSE, <<P("S0")>>)), <<1>>),
                                   R("r3", SC, 0, "b", "initerr", FALSE, <<>>),
                                   R("r4", SC, 1, "a", "ctorerr", FALSE, <<P("S0")>>)>>)
-CfgRemoved == {InitNamed, InitNamedRm, MultiRmReadd, MultiRmFirst, OutKNRmFirst, MultiRmAll}
+\* first output of a singleton pair removed; the pair needs a singleton that has a dependency of its own (ordering)
+MultiRmFirstDeep == C("multirmfirstdeep", <<R("r1", SG, 2, "a", "ctorerr", FALSE, <<>>),
+                                            R("r2", SG, 3, "a", "ctorerr", FALSE, <<P("S2")>>),
+                                            Rmd(Two(R("r3", SG, 0, "a", "multi", FALSE, <<P("S3")>>), 1), <<1>>),
+                                            R("r4", SC, 0, "b", "ctorerr", FALSE, <<P("S1")>>)>>)
+AliasRmFirstDeep == C("aliasrmfirstdeep", <<R("r1", SG, 2, "a", "ctorerr", FALSE, <<>>),
+                                            R("r2", SG, 3, "a", "ctorerr", FALSE, <<P("S2")>>),
+                                            Rmd(As(R("r3", SG, 0, "a", "ctorerr", FALSE, <<P("S3")>>), <<"I0", "I1">>), <<1>>),
+                                            R("r4", SC, 1, "a", "ctorerr", FALSE, <<P("I1")>>)>>)
+CfgRemoved == {InitNamed, InitNamedRm, MultiRmFirstDeep, AliasRmFirstDeep, MultiRmReadd, MultiRmFirst, OutKNRmFirst, MultiRmAll}
 CfgRemovedDefective == {RmFirstCaptive, RmFirstCaptiveOut, RmFirstMissing, RmFirstMissingOut, RmFirstCycle}
 
 \* the same transient requested by two FIELDS of one parameter object (plain, named, group), by a scoped consumer,
